@@ -179,8 +179,9 @@ class AttrsDirective(Directive):
                         attrs = []
                 elif not isinstance(attrs, list): # assume it's a dict
                     attrs = attrs.items()
+                # only `None` removes an attribute; an empty value is a value
                 attrib |= [
-                    (QName(n), v is not None and six.text_type(v).strip() or None)
+                    (QName(n), None if v is None else six.text_type(v).strip())
                     for n, v in attrs
                 ]
                 data = tag, attrib
